@@ -164,6 +164,8 @@ AnnCont == {A1(k, x) : k \in {"seq", "set", "fset", "vtuple", "alias", "flist", 
              \* x: Number | None`, `Sequence[int | None] | Sequence[str]`): the inner union's refusal is one more refusal
              \cup {A2("union", x, y) : x \in {A1("alias", A2("union", A("int"), A("float"))), A1("seq", A2("union", A("int"), A("none")))},
                                        y \in {A("none"), A1("seq", A("str"))}}
+             \* ... and Missing admitted one level down (`type Maybe[T] = T | Missing; x: Maybe[str] | None`)
+             \cup {A2("union", A1("alias", A2("union", A("str"), A("missing"))), A("none"))}
 AnnDeep == {A1("seq", x) : x \in {A1("seq", A("int")), A2("tuple", A("str"), A("int")), A2("map", A("str"), A("int")),
                                   A2("union", A("int"), A("none"))}}
              \cup {A2("map", A("str"), x) : x \in {A1("seq", A("int")), A1("set", A("int")), A2("union", A("str"), A("none"))}}
